@@ -84,13 +84,100 @@ def gen_aw():
     return leaf.emit_coq(leaves, header="C16: Phreeqc::pitzer (pitzer.cpp), Phreeqc::sit (sit.cpp): water activity from the osmotic coefficient"), leaves
 
 
+# ---------------------------------------------------------------------------------------------------------------
+# Pitzer sums (pitzer.cpp: Phreeqc::pitzer, G, GP): per parameter type the increments of LGAMMA[...], of the F sum
+# (F_var), of CSUM and of OSMOT; the Debye-Hueckel F and OSMOT start values; the final assembly.
+M0, M1, M2, PAR = "M[i0]", "M[i1]", "M[i2]", "param"
+GX, GPX = "G(l_alpha*DI)", "GP(l_alpha*DI)"
+PZ_TERMS = [
+    # name, lhs, case, kind(increment/assign), fixed vars
+    ("pz_B0_g0", "LGAMMA[i0]", "TYPE_B0", True, [M0, M1, PAR]),
+    ("pz_B0_g1", "LGAMMA[i1]", "TYPE_B0", True, [M0, M1, PAR]),
+    ("pz_B0_os", "OSMOT", "TYPE_B0", True, [M0, M1, PAR]),
+    ("pz_B1_g0", "LGAMMA[i0]", "TYPE_B1", True, [M0, M1, PAR, GX]),
+    ("pz_B1_g1", "LGAMMA[i1]", "TYPE_B1", True, [M0, M1, PAR, GX]),
+    ("pz_B1_F", "F_var", "TYPE_B1", False, [M0, M1, PAR, GPX, "I"]),
+    ("pz_B1_os", "OSMOT", "TYPE_B1", True, [M0, M1, PAR, "l_alpha", "I"]),
+    ("pz_B2_g0", "LGAMMA[i0]", "TYPE_B2", True, [M0, M1, PAR, GX]),
+    ("pz_B2_g1", "LGAMMA[i1]", "TYPE_B2", True, [M0, M1, PAR, GX]),
+    ("pz_B2_F", "F_var", "TYPE_B2", False, [M0, M1, PAR, GPX, "I"]),
+    ("pz_B2_os", "OSMOT", "TYPE_B2", True, [M0, M1, PAR, "l_alpha", "I"]),
+    ("pz_C0_g0", "LGAMMA[i0]", "TYPE_C0", True, [M0, M1, PAR, "BIGZ", "z0", "z1"]),
+    ("pz_C0_g1", "LGAMMA[i1]", "TYPE_C0", True, [M0, M1, PAR, "BIGZ", "z0", "z1"]),
+    ("pz_C0_csum", "CSUM", "TYPE_C0", True, [M0, M1, "pitz_params[i]->p", "z0", "z1"]),
+    ("pz_C0_os", "OSMOT", "TYPE_C0", True, [M0, M1, PAR, "BIGZ", "z0", "z1"]),
+    ("pz_TH_g0", "LGAMMA[i0]", "TYPE_THETA", True, [M0, M1, PAR]),
+    ("pz_TH_g1", "LGAMMA[i1]", "TYPE_THETA", True, [M0, M1, PAR]),
+    ("pz_TH_os", "OSMOT", "TYPE_THETA", True, [M0, M1, PAR]),
+    ("pz_ET_g0", "LGAMMA[i0]", "TYPE_ETHETA", True, [M0, M1, "etheta"]),
+    ("pz_ET_g1", "LGAMMA[i1]", "TYPE_ETHETA", True, [M0, M1, "etheta"]),
+    ("pz_ET_F", "F_var", "TYPE_ETHETA", False, [M0, M1, "ethetap"]),
+    ("pz_ET_os", "OSMOT", "TYPE_ETHETA", True, [M0, M1, "etheta", "ethetap", "I"]),
+]
+for _t in ("PSI", "ZETA", "ETA"):
+    PZ_TERMS += [("pz_%s_g%d" % (_t, k), "LGAMMA[i%d]" % k, "TYPE_" + _t, True, [M0, M1, M2, PAR]) for k in range(3)]
+    PZ_TERMS += [("pz_%s_os" % _t, "OSMOT", "TYPE_" + _t, True, [M0, M1, M2, PAR])]
+LN0, LN1, LN2, OSC = ["pitz_params[i]->ln_coef[%d]" % k for k in range(3)] + ["pitz_params[i]->os_coef"]
+PZ_TERMS += [
+    ("pz_LA_g0", "LGAMMA[i0]", "TYPE_LAMBDA", True, [M0, M1, PAR, LN0, LN1, OSC]),
+    ("pz_LA_g1", "LGAMMA[i1]", "TYPE_LAMBDA", True, [M0, M1, PAR, LN0, LN1, OSC]),
+    ("pz_LA_os", "OSMOT", "TYPE_LAMBDA", True, [M0, M1, PAR, LN0, LN1, OSC]),
+    ("pz_MU_g0", "LGAMMA[i0]", "TYPE_MU", True, [M0, M1, M2, PAR, LN0, LN1, LN2, OSC]),
+    ("pz_MU_g1", "LGAMMA[i1]", "TYPE_MU", True, [M0, M1, M2, PAR, LN0, LN1, LN2, OSC]),
+    ("pz_MU_g2", "LGAMMA[i2]", "TYPE_MU", True, [M0, M1, M2, PAR, LN0, LN1, LN2, OSC]),
+    ("pz_MU_os", "OSMOT", "TYPE_MU", True, [M0, M1, M2, PAR, LN0, LN1, LN2, OSC]),
+]
+
+
+def gen_pitzer():
+    src = os.path.join(vlib.REPO, "src/phreeqcpp/pitzer.cpp")
+    fn = leaf.load_function(src, "pitzer")
+    leaves = []
+    inl = {"DI": {}}                 # DI = sqrt(I)
+    for name, lhs, case, inc, vars_ in PZ_TERMS:
+        leaves.append(fn.leaf(name, lhs=lhs, case=case, increment=inc, vars=vars_, inline=inl, allow_new_vars=False,
+                              **({} if inc else {"kind": "assign"})))
+    # Debye-Hueckel part: F (= F1 = F2 at patm <= 1), start value of OSMOT, with B = 1.2 and DI = sqrt(I) inlined
+    leaves.append(fn.leaf("pz_DH_F", lhs="F", kind="assign", nth=0, vars=["A0", "I"], inline={"DI": {}, "B": {}}, allow_new_vars=False))
+    leaves.append(fn.leaf("pz_DH_os", lhs="OSMOT", kind="assign", nth=0, vars=["A0", "I"], inline={"DI": {}, "B": {}}, allow_new_vars=False))
+    # assembly: LGAMMA[i] += z0*z0*F_var + z0*CSUM  (z0 = |z|),  COSMOT = 1 + 2 OSMOT / OSUM
+    leaves.append(fn.leaf("pz_asm_g", lhs="LGAMMA[i]", increment=True, vars=["z0", "F_var", "CSUM"], allow_new_vars=False))
+    leaves.append(fn.leaf("pz_asm_z0", lhs="z0", kind="assign", nth=-1, vars=["spec[i]->z"], allow_new_vars=False))
+    leaves.append(fn.leaf("pz_I", lhs="I", kind="assign", nth=0, vars=["mu_x"], allow_new_vars=False))
+    for f in ("G", "GP"):
+        ff = leaf.load_function(src, f)
+        leaves.append(ff.leaf("pz_%s_body" % f, lhs="d", kind="assign", under=["L_Y != 0.0"], vars=["L_Y"], allow_new_vars=False))
+    return leaf.emit_coq(leaves, header="C16: Phreeqc::pitzer, G, GP (pitzer.cpp): increments of the Pitzer sums per parameter type"), leaves
+
+
+def gen_sit():
+    src = os.path.join(vlib.REPO, "src/phreeqcpp/sit.cpp")
+    fn = leaf.load_function(src, "sit")
+    SM0, SM1 = "sit_M[i0]", "sit_M[i1]"
+    ch = ["!(z0 == 0.0 && z1 == 0.0)"]
+    leaves = [
+        fn.leaf("sit_EPS_g0", lhs="sit_LGAMMA[i0]", case="TYPE_SIT_EPSILON", increment=True, vars=[SM0, SM1, "param"], allow_new_vars=False),
+        fn.leaf("sit_EPS_g1", lhs="sit_LGAMMA[i1]", case="TYPE_SIT_EPSILON", increment=True, vars=[SM0, SM1, "param"], allow_new_vars=False),
+        fn.leaf("sit_EPS_os", lhs="OSMOT", case="TYPE_SIT_EPSILON", increment=True, under=ch, vars=[SM0, SM1, "param"], allow_new_vars=False),
+        # Debye-Hueckel part (log10 units): F = -A sqrt(I)/(1 + 1.5 sqrt I), OSMOT start value, with B, T, DI inlined
+        fn.leaf("sit_DH_F", lhs="F", kind="assign", vars=["A", "I"], inline={"DI": {}, "B": {}}, allow_new_vars=False),
+        fn.leaf("sit_DH_os", lhs="OSMOT", kind="assign", nth=0, vars=["A", "I"], inline={"DI": {}, "B": {}, "T": {}}, allow_new_vars=False),
+        fn.leaf("sit_asm_g", lhs="sit_LGAMMA[i]", increment=True, vars=["z0", "F"], allow_new_vars=False),
+    ]
+    return leaf.emit_coq(leaves, header="C16: Phreeqc::sit (sit.cpp): increments of the SIT sums"), leaves
+
+
 def generate():
     """write both Gen files (only when their text changed); returns dict name -> Leaf"""
     t1, l1 = gen_gammas()
     t2, l2 = gen_aw()
+    t3, l3 = gen_pitzer()
+    vlib.write_if_changed(os.path.join(vlib.COQ, "Gen", "Gen_C16_pitzer.v"), t3)
+    t4, l4 = gen_sit()
+    vlib.write_if_changed(os.path.join(vlib.COQ, "Gen", "Gen_C16_sit.v"), t4)
     vlib.write_if_changed(os.path.join(vlib.COQ, "Gen", "Gen_C16_gammas.v"), t1)
     vlib.write_if_changed(os.path.join(vlib.COQ, "Gen", "Gen_C16_aw.v"), t2)
-    return {lf.name: lf for lf in l1 + l2}
+    return {lf.name: lf for lf in l1 + l2 + l3 + l4}
 
 
 if __name__ == "__main__":
